@@ -62,12 +62,18 @@ func c02Run(c *c02Case, cmds []database.Command, dir string, shipped *database.D
 	for i := 0; i < 3; i++ {
 		c.Runs = append(c.Runs, projectResults(b, b.SearchUniversal(q, o)))
 	}
-	for i := 0; i < 4; i++ {
+	nsugg := 5
+	reps := 4
+	if c.Kind == "sugg" { // tied suggestion words: which of them survives a small maximum must be fixed too
+		nsugg = 1 + c.ID%3
+		reps = 12
+	}
+	for i := 0; i < reps; i++ {
 		db := a
-		if i >= 2 {
+		if i >= reps/2 {
 			db = b
 		}
-		c.Sugg = append(c.Sugg, intsList(db.GetSuggestions(q, 5)))
+		c.Sugg = append(c.Sugg, intsList(db.GetSuggestions(q, nsugg)))
 	}
 }
 
@@ -108,6 +114,23 @@ func runC02(seed int64, n int, replay string, e *emitter) {
 			loadShipped()
 			c.Query = ints(shippedQueries[(i/10)%len(shippedQueries)])
 			c.Opts = eOpts{Limit: []int{5, 10, 3}[r.Intn(3)], NLP: r.Intn(2) == 0, Fuzzy: true, Threshold: -30}
+		case i%7 == 4:
+			// words of equal length that match a typo equally well (one inner letter varies)
+			c.Kind = "sugg"
+			base := []string{"branch", "commit", "status", "folder", "docker", "search", "remove"}[r.Intn(7)]
+			k := 1 + r.Intn(len(base)-2)
+			for _, v := range []byte("aeiouy")[:3+r.Intn(4)] {
+				w := base[:k] + string(v) + base[k+1:]
+				cm := eGenCommand(r)
+				cm.Description = w + " " + cm.Description
+				cmds = append(cmds, cm)
+			}
+			for j, m := 0, r.Intn(4); j < m; j++ {
+				cmds = append(cmds, eGenCommand(r))
+			}
+			r.Shuffle(len(cmds), func(i, j int) { cmds[i], cmds[j] = cmds[j], cmds[i] })
+			c.Query = ints(base[:k] + base[k+1:])
+			c.Opts = eOpts{Limit: 5, Fuzzy: r.Intn(2) == 0, NLP: r.Intn(2) == 0, AllPlatforms: true}
 		case i%5 == 2:
 			c.Kind = "shared"
 			var q string
